@@ -549,7 +549,7 @@ def run(R, tier, seed):
     R.trusted += ["rustc nightly MIR dump of the copia binary crate", "mirsmt encoder + std models (BTreeMap over an ordered path universe, iteration in key order)",
                   "z3 5.1 (deciding), cvc5 / z3 4.8.12 (re-deciding)", "native oracle: the real hub_sync talking to the real serve() loop in a child process over a pipe"]
     R.assumptions += ["CLIENT step only: the server end of the pipe is decided separately (C03, C10, C11, C12); HubClient::{connect,list,put,bye} are summaries in the "
-                      "orchestration obligation (put is then decided on its own with the pipe as a recorder); the directory scan is an input",
+                      "orchestration obligation (put is then decided on its own with the pipe as a recorder, and once more INSIDE hub_sync in C13/hub_sync+put, where only connect/list/bye/send/recv are summaries); the directory scan is an input",
                       "a second client acting between the List and a Put is C03's subject: the Put carries the LISTED hash as `expected` (decided here), so it cannot "
                       "overwrite what that client committed (decided there)"]
     ctx = Ctx()
